@@ -105,6 +105,11 @@ class Socket:
             for link in self.links:
                 if link.up and any(msg[0].startswith(p) for p in link.dst.subs):
                     w.transmit(link, msg)
+            if w.dies_at_pub and self.actor.name in w.dies_at_pub and b'"mid":-' not in msg[1]:
+                i = w.pub_ctr.get(self.actor.name, 0)
+                w.pub_ctr[self.actor.name] = i + 1
+                if i == w.dies_at_pub[self.actor.name]:
+                    w.die_here(self.actor)
         elif self.typ == PUSH:
             link = self.links[0] if self.links else None
             if link is not None and link.up:
@@ -258,6 +263,8 @@ class World:
         self.flush_on_reconnect = net.get('flush', True)
         self.drops_to = {(a, b, int(n)) for a, b, n in (net.get('drops_to') or [])}   # (publishing actor, receiving actor, n): the n-th publish on that pair is lost (what PUB/SUB may do to a slow or connecting listener)
         self.pair_ctr = {}
+        self.dies_at_pub = {a: int(n) for a, n in (net.get('dies_at_pub') or [])}    # actor name -> n: the process dies right after its n-th *data* publish (a single topic message), i.e. possibly between the topic messages of one set
+        self.pub_ctr = {}
         self.reconn_lag_ms = net.get('reconn_lag_ms') or 0    # > 0: on re-connection the SUB side comes back this much later than the request side; < 0: the other way round
         self.sub_hwm = net.get('sub_hwm')         # optional bound on a SUB socket's queue (messages); beyond it a publish is dropped, as PUB/SUB does at its high-water marks
         self.keyed = bool(net.get('keyed'))   # delay/connect tables chosen by (client, server, type) instead of creation order: stable when actors are added/removed
@@ -361,6 +368,14 @@ class World:
             s.close()
         if actor.started:
             self._run_actor(actor)
+
+    def die_here(self, actor):
+        """The same hard kill, at the point where the actor itself is running (a crash in the middle of its own code)."""
+        actor.dead = True
+        self.log.append(('died', self.now, actor.name, actor.inc))
+        for s in list(actor.sockets):
+            s.close()
+        raise SimKilled()
 
     def _run_actor(self, actor):
         if actor.done:
